@@ -71,6 +71,10 @@ class PriceLimitPlugin(SlotPlugin):
         self.snap: Dict[int, Tuple] = {}
         self.in_session_orders: Dict[Tuple[int, int], Tuple[float, float]] = {}
         self.pending_band = None
+        cfg = mon.ext.get("cfg", {})
+        specs = mon.ext.get("probe_specs", {}) or {}
+        self.other_rewriters = any(isinstance(v, dict) and v.get("class") in ("OrderMistakeShock",) for v in cfg.values()) \
+            or any(sp.get("alter") or sp.get("rewrite") for sp in specs.values())
 
     def on_tap(self, mon, idx, phase, kind, obj):
         if kind != "order_before" or phase != "n":
@@ -143,6 +147,22 @@ class PriceLimitPlugin(SlotPlugin):
             self.pending_band = (id(order), lo, hi, sl["name"])
 
     def on_order_log(self, mon, log, o, mm, market, inf):
+        # independent of the taps (which are hooks themselves and share the dispatch tables with the rule): inside
+        # the session of the only enabled rule that covers this market, an accepted limit price lies in the band
+        # widened by one tick.  Needs a final time-0 price (t >= 1) and nobody else rewriting prices.
+        if not o.is_mkt and log.time >= 1 and not self.other_rewriters:
+            cover = [sl for sl in self.slots if market.name in sl["settings"].get("targetMarkets", [])]
+            if len(cover) == 1 and cover[0]["settings"].get("enabled", True) and self.cur_session(mon) == cover[0]["session"]:
+                r_ = float(cover[0]["settings"].get("triggerChangeRate", 0.0))
+                p0_ = market.get_market_price(0)
+                if p0_ > 0 and r_ >= 0:
+                    lo_, hi_ = p0_ * (1 - r_), p0_ * (1 + r_)
+                    e_ = REL * max(abs(hi_), mm.tick)
+                    mon.probe("c15_accepted_band_checked")
+                    if not (lo_ - mm.tick - e_ <= log.price <= hi_ + mm.tick + e_):
+                        mon.viol("C15", "accepted_outside_widened_band", {"rule": cover[0]["name"], "accepted": log.price,
+                                                                           "band": [lo_, hi_], "tick": mm.tick, "time": log.time,
+                                                                           "seen_by": "logger"})
         pb = self.pending_band
         self.pending_band = None
         if pb is None or inf is None or pb[0] != id(inf["obj"]) or o.is_mkt:
